@@ -283,6 +283,67 @@ fn enumerate_bounded(m: &mut aws_smt_strings::regular_expressions::ReManager, c:
     }
 }
 
+/// largest finite loop counter in the term (0 if there is none)
+pub fn max_counter(r: RegLan, seen: &mut std::collections::HashSet<usize>) -> u32 {
+    if !seen.insert(key(r)) {
+        return 0;
+    }
+    match r.verif_expr() {
+        BaseRegLan::Concat(a, b) => max_counter(a, seen).max(max_counter(b, seen)),
+        BaseRegLan::Loop(e, range) => {
+            let (i, j) = range.verif_bounds();
+            let here = match j { None => i, Some(j) => i.max(j) };
+            here.max(max_counter(e, seen))
+        }
+        BaseRegLan::Complement(e) => max_counter(e, seen),
+        BaseRegLan::Union(l) | BaseRegLan::Inter(l) => l.iter().map(|x| max_counter(x, seen)).max().unwrap_or(0),
+        _ => 0,
+    }
+}
+
+/// bound of the bounded-liveness probe for tiny terms (see DEEP_* in queries.rs)
+pub const DEEP_CAP: usize = 20_000;
+
+pub enum Deep {
+    /// the closure has this many terms
+    Closed(usize),
+    /// some derivative grew well beyond the root: legitimately heavy, no verdict
+    Grew,
+    /// more than DEEP_CAP distinct derivatives, all of them about as small as the root
+    Overflow,
+    Panicked,
+}
+
+/// Bounded-liveness probe: enumerate the derivatives of a copy of `r` in a scratch manager up to
+/// DEEP_CAP terms, giving up without a verdict as soon as a derivative is much larger than the root.
+pub fn deep_probe(r: RegLan) -> Deep {
+    let res = crate::calls::guarded(|| {
+        let mut m = aws_smt_strings::regular_expressions::ReManager::new();
+        let mut memo = HashMap::new();
+        let c = copy_term(r, &mut m, &mut memo);
+        let root = dag_size(c, &mut std::collections::HashSet::new());
+        let mut n = 0usize;
+        let mut it = m.iter_derivatives(c);
+        loop {
+            match it.next() {
+                None => return Deep::Closed(n),
+                Some(x) => {
+                    n += 1;
+                    if n > DEEP_CAP {
+                        return Deep::Overflow;
+                    }
+                    let x: RegLan = unsafe { &*(x as *const aws_smt_strings::regular_expressions::RE) };
+                    let size = dag_size(x, &mut std::collections::HashSet::new());
+                    if size > 4 * root + 16 {
+                        return Deep::Grew;
+                    }
+                }
+            }
+        }
+    });
+    res.unwrap_or(Deep::Panicked)
+}
+
 /// Sizing probe, first stage: rebuild the term in a scratch manager (the observed manager is not
 /// touched) and enumerate its derivatives there under the caps. A cheap filter only: the copy goes
 /// through the smart constructors again and may normalise differently from the observed term
